@@ -69,6 +69,24 @@ func runC15(r *Run) {
 		}
 		r.check(ok, "getSession:miss⇒generated-id", r.pos(idStores[0]), "after a storage miss the id assignment is reachable only through KeyGenerator()",
 			"after a storage miss the client-presented id can be assigned to the session (session fixation): "+wit)
+		// belief: an id found in the request locals is treated as fresh (`fresh := ok`), so only generated ids may be written there
+		n15 := 0
+		for _, c := range callsMatching(f, false, nameHasSuffix(".Ctx).Locals")) {
+			// setter form: Locals(key, value...) with a non-empty variadic
+			if len(c.Common.Args) < 2 {
+				continue
+			}
+			sl, isSlice := c.Common.Args[1].(*ssa.Slice)
+			if !isSlice {
+				continue
+			}
+			n15++
+			_, hit := reach(entryOf(f), func(in ssa.Instruction) bool { return in == c.Instr }, nil, isKeyGen)
+			_ = sl
+			r.check(hit == nil, "getSession:locals-cache-only-generated-ids", r.pos(c.Instr), "the id is cached in the request locals only after it was generated",
+				"getSession caches a client-presented id in the request locals, where a later lookup in the same request takes it as fresh: the absolute deadline is re-stamped (never expires) and a second store ignores its own cookie")
+		}
+		r.atLeast("locals writes in getSession", n15, 1)
 		// storage error → no session
 		var errE []edge
 		for _, br := range branchesIn(f) {
